@@ -469,7 +469,15 @@ def _range_spec(rng, n_labels, scale):
     return {"kind": "dist", "max": [_r(mx * rng.uniform(0.6, 1.2), 2) for _ in range(n_labels)], "min": mn}
 
 
-def _crit_spec(rng, cfg, scale, narrow):
+def _crit_spec(rng, cfg, scale, narrow, tokens=()):
+    spec = _crit_spec_inner(rng, cfg, scale, narrow)
+    if tokens and rng.random() < (0.3 if cfg.get("dim") == 2 else 0.1):
+        # a per-frame critical filter may single out ground truths by their ids
+        spec["target_uuids"] = sorted(rng.sample(list(tokens), rng.randint(1, max(1, len(tokens) - 1))))
+    return spec
+
+
+def _crit_spec_inner(rng, cfg, scale, narrow):
     labels = list(cfg["target_labels"])
     if rng.random() < 0.3:
         rng.shuffle(labels)
@@ -767,6 +775,7 @@ def make_plan(seed, run, profile_name, clean=None, force=None):
     tol = rng.choice([75_000, 75_000, period // 2, period // 4, period, 3 * period, 1000, 10])
     lookup = {"tol": int(tol), "interp": bool(interp)}
 
+    tokens = [a["token"] for a in actors]
     crit_default = _crit_spec(rng, cfg, scale, rng.random() < prof["narrow_crit_p"] * 0.5)
     pf_default = _pf_spec(rng, cfg)
 
@@ -786,7 +795,7 @@ def make_plan(seed, run, profile_name, clean=None, force=None):
     near_tie_carry = [None]
     seen_prev = set()
     sticky = rng.random() < prof["sticky_label_p"]
-    idless = tracking and rng.random() < prof["idless_p"]
+    idless = tracking and (not clean) and rng.random() < prof["idless_p"]
     label_state = {}
 
     def fresh_id():
@@ -1125,7 +1134,7 @@ def make_plan(seed, run, profile_name, clean=None, force=None):
             if payload["copy"] == 1 or fire("crit_change"):
                 if enabled("crit_change") or payload["copy"] == 1:
                     if "crit_change" in forced_kinds or rng.random() < 0.6:
-                        op["crit"] = _crit_spec(rng, cfg, scale, rng.random() < prof["narrow_crit_p"])
+                        op["crit"] = _crit_spec(rng, cfg, scale, rng.random() < prof["narrow_crit_p"], tokens)
                         note("crit_change")
             if (payload["copy"] == 1 and enabled("pf_change")) or fire("pf_change"):
                 op["pf"] = _pf_spec(rng, cfg, factor=rng.choice([0.5, 2.0, 3.0]))
@@ -1136,7 +1145,7 @@ def make_plan(seed, run, profile_name, clean=None, force=None):
                 note("reeval")
                 op2 = {"op": "deliver", "mid": rng.choice(delivered)}
                 if rng.random() < 0.5:
-                    op2["crit"] = _crit_spec(rng, cfg, scale, rng.random() < 0.5)
+                    op2["crit"] = _crit_spec(rng, cfg, scale, rng.random() < 0.5, tokens)
                 ops.append(op2)
                 if enabled("restart") and rng.random() < 0.15:
                     ops.append({"op": "restart"})
